@@ -6,7 +6,7 @@ CFG = dict(
     lean_support=["SaramaVerif.GoSem", "SaramaVerif.Gen.C17"],
     # name of the model driver (svdrv_<cxx> is built from SaramaVerif/Driver/<Cxx>.lean); None = no line-protocol model
     model="C17",
-    required_theorems=["Props.C17.hash_range", "Props.C17.hash_reference_eq_java", "Props.C17.hash_consistent",
+    required_theorems=["Props.C17.hash_range", "Props.C17.hash_reference_eq_java", "Props.C17.hash_consistent", "Props.C17.hash_key_range", "Props.C17.hash_key_consistent",
                        "Props.C17.rr_run_range", "Props.C17.rr_cycle", "Props.C17.manual_identity",
                        "Props.C17.partition_message_spec", "Props.C17.failed_partitioning_sends_nothing",
                        "Props.C17.custom_fallback_used",
